@@ -185,6 +185,7 @@ def run(ctx) -> None:
     c04.r04_5(_Relabel(ctx))
     r09_7(ctx, P)
     r09_8(ctx)
+    r09_9(ctx)
     ctx.floor("pull_sites", 1)
     ctx.floor("tee_finally_copies", 2)
 
@@ -300,6 +301,20 @@ def r09_5(ctx, P) -> None:
                         ok = obj(it) is shared and not filtered
         ctx.check(ok, "R09.5", init, c, "each child gets its own element of the shared list as buffer and the "
                   "same shared list as peers (one child per buffer)")
+
+
+def r09_9(ctx) -> None:
+    """A child never hands an item to its consumer while holding the lock: the consumer may pause
+    (or never come back) at that yield and every sibling would wait for the lock."""
+    ctx.rule("R09.9", "no yield inside the `async with lock` region (the lock is held only for fetching and broadcasting)")
+    u = ctx.inlined(ctx.unit("itertools.tee_peer"))
+    cfg = cfg_of(u)
+    P = _params(u)
+    bad = [n for n in cfg.nodes if n.kind == "yield" and not n.tag and any(
+        k == "with" and isinstance(getattr(a, "context_expr", None), ast.Name) and a.context_expr.id == P["lock"]
+        for (k, a) in n.regions)]
+    ctx.check(not bad, "R09.9", u, bad[0] if bad else "tee_peer", "items are yielded only after the lock was released",
+              node=bad[0] if bad else None)
 
 
 def r09_8(ctx) -> None:
